@@ -30,7 +30,7 @@ def camel(snake):
 
 class Enc:
     def __init__(self, name, iset, diagram, sem=None, guard=None, undefined=None, unpred=None, cond=None, attrs=None,
-                 arch=4, family='', it_ok=True, sbz_unpred=True, notes=''):
+                 arch=4, family='', it_ok=True, sbz_unpred=True, notes='', notimpl=None):
         """name: repository class name. iset: 'A' | 'T16' | 'T32'.
         cond: None -> default ('arm' cond field for A if the diagram has one, IT-derived for Thumb);
               'field' -> Thumb conditional branch field named cond; 'none' -> always executes."""
@@ -45,6 +45,7 @@ class Enc:
         self.arch = arch
         self.family = family
         self.notes = notes
+        self.notimpl = notimpl  # (f, S) -> Bool: the repository reports an unimplemented feature (mock hook)
         self.length = 16 if iset == 'T16' else 32
         self.thumb = iset != 'A'
         self.items = self._parse(diagram)
@@ -169,12 +170,55 @@ class Exc:
         self.kw = kw
 
 
-def raise_exc(S, cond, kind, **kw):
-    """record that an exception of `kind` is raised at this point of the operation when cond holds"""
+def raise_exc(S, cond, kind, snap=None, **kw):
+    """record that an exception of `kind` is raised at this point of the operation when cond holds
+    (snap: the state the exception is taken from; default = the current state)"""
     if not hasattr(S, 'excs'):
         S.excs = []
     prior = z3.Or(*[e.cond for e in S.excs]) if S.excs else z3.BoolVal(False)
-    S.excs.append(Exc(z3.And(z3.Not(prior), _b(cond)), kind, S.copy(), **kw))
+    S.excs.append(Exc(z3.And(z3.Not(prior), _b(cond)), kind, (snap or S).copy(), **kw))
+
+
+def aborted(S):
+    """Bool: some exception recorded so far fires (later effects of the instruction must not happen)"""
+    ex = getattr(S, 'excs', [])
+    return z3.Or(*[e.cond for e in ex]) if ex else z3.BoolVal(False)
+
+
+def _data_abort(S, cond, addr, is_write, fs5, alignment):
+    T = S.copy()
+    if S.cfg.get('pmsa', True):
+        T.pmsa_fault_status(addr, is_write, fs5)
+    else:
+        T.vmsa_fault_status(addr, is_write, fs5)
+    raise_exc(S, cond, 'dabort', snap=T, alignment=z3.BoolVal(alignment))
+
+
+def mem_u_read(S, addr, size):
+    """MemU[addr,size]: records the alignment-fault abort; returns the value read when no fault"""
+    _data_abort(S, S.mem_u_fault(addr, size), addr, False, 0b00001, True)
+    return S.mem_u_get(addr, size)
+
+
+def mem_a_read(S, addr, size):
+    _data_abort(S, S.mem_a_fault(addr, size), addr, False, 0b00001, True)
+    return S.mem_a_get(addr, size)
+
+
+def mem_u_write(S, addr, size, value):
+    """MemU[addr,size] = value (no write when this or an earlier access aborts)"""
+    _data_abort(S, S.mem_u_fault(addr, size), addr, True, 0b00001, True)
+    S.mem_u_set(addr, size, value, guard=z3.Not(aborted(S)))
+
+
+def mem_a_write(S, addr, size, value):
+    _data_abort(S, S.mem_a_fault(addr, size), addr, True, 0b00001, True)
+    S.mem_a_set(addr, size, value, guard=z3.Not(aborted(S)))
+
+
+def unaligned_support(S):
+    """UnalignedSupport(): ARMv7 always; ARMv6: SCTLR.U"""
+    return z3.BoolVal(True) if S.arch >= 7 else S.sctlr(22)
 
 
 def take(kind, snap, kw):
@@ -225,7 +269,8 @@ def step(S0, enc, f):
     U = S0.copy()
     U.take_undef_instr_exception()
     R = St.merge(und, U, R)
-    info = {'passed': passed, 'undefined': und, 'exception': z3.Or(any_exc, und), 'cond': cond}
+    ni = z3.And(z3.Not(und), passed, _b(enc.notimpl(f, S0))) if enc.notimpl else z3.BoolVal(False)
+    info = {'passed': passed, 'undefined': und, 'exception': z3.Or(any_exc, und), 'cond': cond, 'notimpl': ni}
     return R, unp, info
 
 
